@@ -46,6 +46,7 @@ type step struct {
 	Hlen     int             `json:"hlen"`
 	Res      json.RawMessage `json:"res"`
 	Definite bool            `json:"definite"`
+	Twin     bool            `json:"twin"` // same transaction content (same id) as the previous step, other signature
 }
 
 type key struct {
@@ -280,6 +281,9 @@ func (w *world) run(s step, salt int) *fail {
 		descr := fmt.Sprintf(s.Kind+" transaction, data type "+s.Dt+": claimed sender %s (from form %s), signature by %s over the id of %q (tx is %q), V %s, R %s, S %s, %d bytes",
 			s.Claimed, s.Ff, s.Sig.K, s.Sig.M, s.M, s.Sig.V, s.Sig.R, s.Sig.S, s.Sig.Len)
 		if got == "accept" {
+			if s.Twin {
+				return &fail{"txauth:accepted:afterverify:" + s.Dt, "after a transaction with the same id was verified in this process, Verify() ACCEPTS a copy it must reject: " + descr + "\n" + string(js), false}
+			}
 			return &fail{"txauth:accepted:" + s.Dt + ":" + classOf(s), "Verify() ACCEPTS a transaction it must reject: " + descr + "\n" + string(js), false}
 		}
 		if want == "accept" && s.Definite {
@@ -420,6 +424,7 @@ func TestReplay(t *testing.T) {
 			w.key("k2")
 		}
 		var f *fail
+		lastSalt := 0
 		sigs := ""
 		for _, s := range steps {
 			sigs += fmt.Sprintf("%s:%s:%s:%s:%s:%s:%+v:%s:%d;", s.Kind, s.Dt, s.Op, s.Claimed, s.Ff, s.M, s.Sig, s.K, s.Hlen)
@@ -429,7 +434,12 @@ func TestReplay(t *testing.T) {
 						f = &fail{"txauth:panic", fmt.Sprintf("the code under test panicked: %v (case %+v)", r, s), false}
 					}
 				}()
-				f = w.run(s, rnd.Intn(1<<20))
+				salt := rnd.Intn(1 << 20)
+				if s.Twin {
+					salt = lastSalt
+				}
+				lastSalt = salt
+				f = w.run(s, salt)
 			}()
 			if f != nil {
 				break
